@@ -17,6 +17,20 @@ pub(crate) struct Probe<T> {
     reached_indirect_probe_stage: bool,
 }
 
+#[cfg(feature = "verif-hooks")]
+impl<T: Clone> Probe<T> {
+    // (target, pending indirect helpers, direct ack seen, indirect acks, indirect stage reached)
+    pub(crate) fn verif_state(&self) -> (Option<Member<T>>, Vec<T>, bool, usize, bool) {
+        (
+            self.direct.clone(),
+            self.indirect.clone(),
+            self.direct_ack_ok,
+            self.indirect_ack_count,
+            self.reached_indirect_probe_stage,
+        )
+    }
+}
+
 impl<T: Clone + PartialEq> Probe<T> {
     pub(crate) fn new(indirect: Vec<T>) -> Self {
         Self {
